@@ -169,12 +169,27 @@ def file_cases(ctx):
                     # get_##field(struct s *p) { \` ...) scan_path reports a function `field` (H1 report, round 5)
                     bom = False
                 exp = o.expected(programs.NESTING[lang])
+                if rnd.random() < 0.2:
+                    # contents NOT in Unicode Normalization Form C: a share of the program's identifiers (function names,
+                    # parameters, variables; every occurrence alike) respelled with decomposed letters / singletons the
+                    # language's lexer reads as one identifier; the expectation moves to the new columns and names
+                    text, exp, respelled = scan_streams.denormalise(lang, text, rnd, rnd.choice([0.3, 1.0]), exp, only=_plain_words(o, text))
                 if bom:
                     exp = scan_streams.with_bom(text, exp)[1]
                 out.append({"language": lang, "text": text, "expected": exp, "newline": nl, "bom": bom,
                             "name": ff.pick_name(lang, rnd, "u%d" % len(out), sr.EXT[lang]),
                             "data": ff.to_bytes(text, nl, bom, rnd)})
     return out
+
+
+def _plain_words(o, text):
+    """the words of a generated program that are free to be respelled: its function names and every word that is in no
+    supported lexer's token tables (parameters, variables, generated names) - keywords, types and builtin names stay"""
+    import re
+    tables = set()
+    for l in sr.LANGS:
+        tables |= scan_streams._lexer_words(type(sr.lexer_for(l)))
+    return {f.name for f in o.funcs if f.name} | {w for w in re.findall(r"[A-Za-z_][A-Za-z0-9_]*", text) if w not in tables and len(w) > 1}
 
 
 def file_failures(cases, workers=8):
@@ -270,7 +285,7 @@ def _extra_job(tier):
     fcases = file_cases(ctx)
     nfiles, ffails = file_failures(fcases)
     dist["files"] = {"files": len(fcases), "evaluations": nfiles, "line_ends": {nl: sum(1 for c in fcases if c["newline"] == nl) for nl in ("lf", "crlf", "cr", "mixed")},
-                     "byte_order_mark": sum(1 for c in fcases if c["bom"]), "backslash_continuations": sum(1 for c in fcases if "\\\n" in c["text"]),
+                     "byte_order_mark": sum(1 for c in fcases if c["bom"]), "contents_not_in_nfc": sum(1 for c in fcases if __import__("unicodedata").normalize("NFC", c["text"]) != c["text"]), "backslash_continuations": sum(1 for c in fcases if "\\\n" in c["text"]),
                      "duplicate_function_names": sum(1 for c in fcases if len({x[0] for x in c["expected"]}) < len(c["expected"])),
                      "names_other_than_plain_extension": sum(1 for c in fcases if not c["name"].endswith("." + sr.EXT[c["language"]]))}
     nwide, wfails = wide_failures(ctx, dist)
@@ -385,7 +400,7 @@ def correspond(ctx):
     nontrivial |= {("tree",) + tuple(x) for x in []}
     return {
         "evaluations": len(allc) + nladder + tr["evaluations"], "distinct_nontrivial": len(nontrivial) + nladder + tr["distinct_nontrivial"],
-        "rule": "canonical-fragment programs from the per-language grammar (a share with function names drawn with replacement from words that are keywords in another supported language, Python backslash continuations whose next line is indented anyhow, C / C++ multi-line macros; functions, methods, classes, global code, nesting, control blocks, callbacks, initialisers, comments and blank lines anywhere, string literals with delimiters, multi-line headers, both brace styles, brace groups in parameters, async, decorators, docstrings; C++ / Java / C#: constructors and destructors of the enclosing class, C++ access specifiers `public:` ... in front of any member; 8 % of the programs also behind a byte order mark) + exhaustive body-length sweep 1..75 per language + size ladder: one function of 10^2, 10^3, 10^4 body statements and files of 10^2, 10^3, 10^4 lines of many functions (above 1000 lines: real = expectation only) + FILES (real = expectation only): canonical programs whose function names are drawn with replacement from words that are keywords in another supported language (duplicates, overloads), with Python backslash continuations indented anyhow and C / C++ multi-line macros, and files of 2-4 long functions, written with LF / CR LF / CR / mixed line ends, with and without final newline / UTF-8 signature, under any file name Pygments maps to the language, observed through Scanner.scan_path(root).files and (functions over 30 lines) commands.check.check_file + column ladder: one code line of a brace-language program pushed right by 10^2 .. 10^5 characters (block comment or blanks; plus n-1, n, n+1, 2n for integers new in the source), real = expectation; three-way: real = model = per-token expectation; non-trivial = distinct programs with at least one expected function. PLUS " + tr["rule"],
+        "rule": "NON-NFC FILE CONTENTS: a fifth of the program files has a share of its identifiers (function names, parameters, variables; every occurrence alike) respelled with characters that are not in Unicode Normalization Form C (combining marks behind letters they compose with, ANGSTROM / OHM / KELVIN signs) where the language's lexer reads the spelling as one identifier, the expectation moved to the new columns and names; canonical-fragment programs from the per-language grammar (a share with function names drawn with replacement from words that are keywords in another supported language, Python backslash continuations whose next line is indented anyhow, C / C++ multi-line macros; functions, methods, classes, global code, nesting, control blocks, callbacks, initialisers, comments and blank lines anywhere, string literals with delimiters, multi-line headers, both brace styles, brace groups in parameters, async, decorators, docstrings; C++ / Java / C#: constructors and destructors of the enclosing class, C++ access specifiers `public:` ... in front of any member; 8 % of the programs also behind a byte order mark) + exhaustive body-length sweep 1..75 per language + size ladder: one function of 10^2, 10^3, 10^4 body statements and files of 10^2, 10^3, 10^4 lines of many functions (above 1000 lines: real = expectation only) + FILES (real = expectation only): canonical programs whose function names are drawn with replacement from words that are keywords in another supported language (duplicates, overloads), with Python backslash continuations indented anyhow and C / C++ multi-line macros, and files of 2-4 long functions, written with LF / CR LF / CR / mixed line ends, with and without final newline / UTF-8 signature, under any file name Pygments maps to the language, observed through Scanner.scan_path(root).files and (functions over 30 lines) commands.check.check_file + column ladder: one code line of a brace-language program pushed right by 10^2 .. 10^5 characters (block comment or blanks; plus n-1, n, n+1, 2n for integers new in the source), real = expectation; three-way: real = model = per-token expectation; non-trivial = distinct programs with at least one expected function. PLUS " + tr["rule"],
         "samples": [{"language": l, "code": c[:200], "expected": e} for (l, c, e) in cases[:2]] + tr["samples"][:1],
         "exhaustive": False, "distribution": dist,
         "disagreements": dis[:50], "oracle_failures": fails[:50],
